@@ -111,7 +111,7 @@ PROPS = {
     },
     'C03': {
         'extra_props': ['C02b', 'C00_pipeline'],
-        'ops': [('scan', 1500, 150000, ('-mix', 'c03')), ('scan', 200, 10000, ('-mix', 'c02')), ('scanseq', 60, 3000), ('pp', 30, 2000), ('aggregate', 300, 20000), ('html', 100, 5000), ('scan', 1000, 25259, ('-mix', 'kinds')), ('step', 400, 20000), ('sigops', 300, 10000), ('ast', 40, 400)],
+        'ops': [('scan', 1500, 150000, ('-mix', 'c03')), ('scan', 200, 10000, ('-mix', 'c02')), ('scanseq', 60, 3000), ('pp', 30, 2000), ('aggregate', 300, 20000), ('html', 100, 5000), ('scan', 1000, 25259, ('-mix', 'kinds')), ('step', 400, 20000), ('sigops', 300, 10000), ('ast', 40, 400), ('guess', 80, 2000), ('augment', 100, 3000)],
         'corr': ['corr:panic', 'corr:snap', 'corr:err', 'corr:seq', 'corr:step-trace'],
         'prop': ['C03'],
         'nontrivial': ['kind=', 'calls='],
